@@ -80,6 +80,9 @@ Fixpoint dflt (t : lty) : val t :=
   | TConflict => None
   | TPair a b | TDom a b => (dflt a, dflt b)
   | TVec _ => []
+  | TSetTomb => ([], [])
+  | TMapTomb _ => ([], [])
+  | TUF => []
   end.
 
 (* merging a list of atoms (or any values), one by one, into [acc] -- what check_atomize_each
